@@ -3,6 +3,7 @@ use crate::fw::{PropertyDef, Tier};
 pub mod checker;
 pub mod common;
 pub mod e2e;
+pub mod fuzzing;
 pub mod ext;
 pub mod pgen;
 pub mod refmodel;
